@@ -659,3 +659,24 @@ PROPS["C18"] = dict(
           "converted to integer are not judged)."),
     assumptions=["default target flags (ORC_TARGET_FAST_NAN / FAST_DENORMAL relax the semantics by design and are not used)"],
 )
+
+PROPS["C15"] = dict(
+    variant="asan",
+    sources=ENGINE + ["props/c15_text.c"],
+    level="exploration",
+    technique="round-trip / differential property-based testing (rapidcheck): generated programs are built through the API and, independently, printed as .orc text with randomised formatting and literal spellings, parsed, and compared structurally and by emulation",
+    level_text=("generated files of 1..3 functions (full opcode set, all directive kinds) printed with random spacing, tabs, comments, blank "
+                "lines, LF/CRLF/mixed endings, decimal/hex/octal/negative/float/L-suffixed literals, inline literal operands, type names "
+                "and alignments; every parsed program is compared with its API-built twin field by field and by emulation on random "
+                "inputs. Sampled, not exhaustive"),
+    level_note=("trusted base: the printer in props/c15_text.c (written from doc/ and the directive handlers' accepted grammar), the "
+                "structural comparison, orc_executor_emulate for the behavioural half; the parser may share equal literal constants, "
+                "so constants are compared by value and size through the instructions that use them"),
+    stages=[
+        dict(name="rc-print-parse", mode="rc", quick=dict(cases=60000, max_size=700, budget=50), thorough=dict(cases=3000000, max_size=1000, budget=1200)),
+    ],
+    rule=("a case is (1..3 programs, formatting choices, 1..2 run configurations per function). Non-trivial: the first function has at "
+          "least one instruction. Oracle: error-free parse, one program per .function in order, equal names/settings/variables/"
+          "instructions (operands resolved; constants by truncated value), identical emulation results."),
+    assumptions=[],
+)
